@@ -362,6 +362,12 @@ func (c *FnCtx) applyContract(con *Contract, callee *ssa.Function, args []string
 		if len(props) == 0 {
 			props = []string{"C08"}
 		}
+		// a precondition protects the callee from a state it is not written for: establishing it is
+		// part of the no-crash claim of every caller, whichever property the clause was written for -
+		// unless the clause is marked F (functional only: needed for the callee's result, not its safety)
+		if !hasProp(props, "F") && !hasProp(props, "C08") {
+			props = append(append([]string{}, props...), "C08")
+		}
 		if (c.opts != nil && c.opts.noSafety) || (c.con != nil && c.con.Flags["nosafety"]) {
 			c.assumeAt(c.guard(), t)
 		} else {
@@ -897,6 +903,23 @@ func (c *FnCtx) assumeTypeInvsAfterCall(callee *ssa.Function, args []string, arg
 func (c *FnCtx) assumeRequires() {
 	c.assumeTypeInvsAtEntry()
 	if c.con == nil {
+		// a function swept without annotations: its interface-typed parameters range over the input
+		// domain of C08, values built from the nine JSON representation types all the way down
+		// (djson, when the contracts define it)
+		if sf := c.eng.specs.Funcs["djson"]; sf != nil && len(sf.Params) == 1 {
+			env := c.conEnv()
+			env.pkg = c.pkgTypes()
+			env.heap = c.entry
+			for _, p := range c.fn.Params {
+				if !isEmptyInterface(p.Type()) {
+					continue
+				}
+				env.vars = map[string]sv{"zz_p": {c.vals[p], p.Type()}}
+				if t, err := env.evalBool(&ECall{Fun: "djson", Args: []Expr{&EIdent{Name: "zz_p"}}}); err == nil {
+					c.assume(t)
+				}
+			}
+		}
 		return
 	}
 	if len(c.con.Params) > 0 && len(c.con.Params) != len(c.fn.Params) {
